@@ -72,11 +72,12 @@ def main():
     old = {}
     if os.path.exists(out):
         try:
-            old = {r["patch"] + "@" + r.get("tier", "quick"): r for r in json.load(open(out))["results"]}
+            old = {r["patch"] + "@" + r.get("property", "") + "@" + r.get("tier", "quick"): r
+                   for r in json.load(open(out))["results"]}
         except Exception:  # noqa: BLE001
             old = {}
     for r in results:
-        old[r["patch"] + "@" + r.get("tier", tier)] = r
+        old[r["patch"] + "@" + r.get("property", "") + "@" + r.get("tier", tier)] = r
     with open(out, "w") as f:
         json.dump({"results": sorted(old.values(), key=lambda r: (r["patch"], r.get("tier", "quick")))}, f, indent=1)
     missed = [r for r in results if not r.get("caught")]
